@@ -217,3 +217,248 @@ func feedsValue(v ssa.Value, to ssa.Instruction, depth int) bool {
 	}
 	return false
 }
+
+// ---------------------------------------------------------------------------------------------
+// Lost-update lint: Set*(X) ... refresh(X) ... write(X) with no Set* of the same kind after the
+// refresh: the value set before the refresh is overwritten by the server's copy and the write
+// persists the old state. Closures handed to retry helpers (retry.RetryOnConflict,
+// wait.ExponentialBackoff, ...) are treated as loops: a refresh anywhere in the closure may precede a
+// write anywhere in the closure, and setters executed in the parent before the closure was created
+// precede everything in it.
+
+type LostUpdate struct {
+	Set     ssa.Instruction
+	Refresh ssa.Instruction
+	Write   ssa.Instruction
+	Setter  string
+}
+
+func isRetryHelper(cc *ssa.CallCommon) bool {
+	id := calleeID(cc)
+	switch id {
+	case "k8s.io/client-go/util/retry.RetryOnConflict", "k8s.io/client-go/util/retry.OnError",
+		"k8s.io/apimachinery/pkg/util/wait.ExponentialBackoff", "k8s.io/apimachinery/pkg/util/wait.ExponentialBackoffWithContext",
+		"k8s.io/apimachinery/pkg/util/wait.PollUntilContextTimeout", "k8s.io/apimachinery/pkg/util/wait.PollUntilContextCancel":
+		return true
+	}
+	return false
+}
+
+// retryClosures returns closures of fn that are passed to a retry helper, with the call site.
+func retryClosures(fn *ssa.Function) map[*ssa.Function]ssa.Instruction {
+	out := map[*ssa.Function]ssa.Instruction{}
+	for _, c := range callsIn(fn) {
+		if !isRetryHelper(c.Common) {
+			continue
+		}
+		for _, a := range c.Common.Args {
+			if mc, ok := stripConv(a).(*ssa.MakeClosure); ok {
+				if f, ok := mc.Fn.(*ssa.Function); ok {
+					out[f] = c.Instr
+				}
+			}
+		}
+	}
+	return out
+}
+
+// closureKey maps a value inside a closure to the key it has in the parent (free variables are
+// bound to parent values), so that objects can be matched across the closure boundary.
+func (p *Program) parentKey(v ssa.Value, closure *ssa.Function) string {
+	k := p.objectRootKey(v)
+	return k
+}
+
+func (p *Program) setterOn(in ssa.Instruction) (obj ssa.Value, name string, ok bool) {
+	ci, isCall := in.(ssa.CallInstruction)
+	if !isCall {
+		return nil, "", false
+	}
+	cc := ci.Common()
+	n := calleeName(cc)
+	if len(n) < 4 || n[:3] != "Set" {
+		return nil, "", false
+	}
+	r := callRecv(cc)
+	if r == nil {
+		return nil, "", false
+	}
+	return r, n, true
+}
+
+// lostUpdates analyses fn together with its retry closures.
+func (p *Program) lostUpdates(fn *ssa.Function) []LostUpdate {
+	var out []LostUpdate
+	// straight-line part
+	out = append(out, p.lostUpdatesIn(fn, nil)...)
+	for cl, site := range retryClosures(fn) {
+		out = append(out, p.lostUpdatesIn(cl, site)...)
+	}
+	return out
+}
+
+// freeVarBinding resolves a FreeVar of closure cl to the value bound in the parent.
+func freeVarBinding(cl *ssa.Function, fv *ssa.FreeVar) ssa.Value {
+	parent := cl.Parent()
+	if parent == nil {
+		return nil
+	}
+	idx := -1
+	for i, f := range cl.FreeVars {
+		if f == fv {
+			idx = i
+		}
+	}
+	if idx < 0 {
+		return nil
+	}
+	for _, b := range parent.Blocks {
+		for _, in := range b.Instrs {
+			if mc, ok := in.(*ssa.MakeClosure); ok && mc.Fn == ssa.Value(cl) && idx < len(mc.Bindings) {
+				return mc.Bindings[idx]
+			}
+		}
+	}
+	return nil
+}
+
+// crossKey: key of an object value that is comparable between a closure and its parent: free
+// variables (captured by reference: *freevar) are replaced by the parent's alloc and, when that
+// alloc has a single store, by the stored value's key.
+func (p *Program) crossKey(v ssa.Value, fn *ssa.Function) string {
+	v = stripConv(v)
+	if call, _ := asCall(v); call != nil && calleeName(call.Common()) == "ClientObject" {
+		if r := callRecv(call.Common()); r != nil {
+			return p.crossKey(r, fn)
+		}
+	}
+	if u, ok := v.(*ssa.UnOp); ok {
+		if fv, ok := u.X.(*ssa.FreeVar); ok {
+			if b := freeVarBinding(fn, fv); b != nil {
+				if a, ok := b.(*ssa.Alloc); ok {
+					return "var:" + a.Parent().Name() + ":" + a.Name()
+				}
+				return p.key(b)
+			}
+		}
+		if a, ok := u.X.(*ssa.Alloc); ok {
+			return "var:" + a.Parent().Name() + ":" + a.Name()
+		}
+	}
+	return p.key(v)
+}
+
+func (p *Program) lostUpdatesIn(fn *ssa.Function, retrySite ssa.Instruction) []LostUpdate {
+	var out []LostUpdate
+	type ev struct {
+		in  ssa.Instruction
+		key string
+		set string
+	}
+	var sets, refreshes, writes []ev
+	scan := func(f *ssa.Function, only func(ssa.Instruction) bool) {
+		for _, b := range f.Blocks {
+			for _, in := range b.Instrs {
+				if only != nil && !only(in) {
+					continue
+				}
+				if obj, n, ok := p.setterOn(in); ok {
+					sets = append(sets, ev{in, p.crossKey(obj, f), n})
+				}
+				if obj := p.refreshedObject(in); obj != nil {
+					ci := in.(ssa.CallInstruction)
+					if isReaderGet(ci.Common()) {
+						refreshes = append(refreshes, ev{in, p.crossKey(obj, f), ""})
+					}
+					c := Call{Instr: ci, Common: ci.Common(), Fn: f}
+					if ws, ok := classifyWriter(c); ok && (ws.Verb == "Update" || ws.Verb == "Status.Update" || ws.Verb == "Patch") {
+						writes = append(writes, ev{in, p.crossKey(ws.Obj, f), ""})
+					}
+				}
+			}
+		}
+	}
+	scan(fn, nil)
+	if retrySite == nil {
+		for _, w := range writes {
+			for _, r := range refreshes {
+				if r.key != w.key {
+					continue
+				}
+				// refresh can precede write
+				if !canPrecede(r.in, w.in) {
+					continue
+				}
+				for _, s := range sets {
+					if s.key != w.key || !canPrecede(s.in, r.in) {
+						continue
+					}
+					// is there a later set of the same name between refresh and write on every path?
+					if p.mustPassBetween(r.in, w.in, func(in ssa.Instruction) bool {
+						o, n, ok := p.setterOn(in)
+						return ok && n == s.set && p.crossKey(o, fn) == w.key
+					}) {
+						continue
+					}
+					out = append(out, LostUpdate{Set: s.in, Refresh: r.in, Write: w.in, Setter: s.set})
+				}
+			}
+		}
+		return out
+	}
+	// retry closure: refresh anywhere in the closure may precede any write in it (next attempt).
+	parent := fn.Parent()
+	var parentSets []ev
+	for _, b := range parent.Blocks {
+		for _, in := range b.Instrs {
+			if obj, n, ok := p.setterOn(in); ok && canPrecede(in, retrySite) {
+				parentSets = append(parentSets, ev{in, p.crossKey(obj, parent), n})
+			}
+		}
+	}
+	for _, w := range writes {
+		for _, r := range refreshes {
+			if r.key != w.key {
+				continue
+			}
+			// setters in the closure that dominate the write re-establish the value on every attempt
+			for _, s := range parentSets {
+				if s.key != w.key {
+					continue
+				}
+				reSet := p.mustPrecede(w.in, func(in ssa.Instruction) bool {
+					o, n, ok := p.setterOn(in)
+					return ok && n == s.set && p.crossKey(o, fn) == w.key
+				})
+				if reSet {
+					continue
+				}
+				out = append(out, LostUpdate{Set: s.in, Refresh: r.in, Write: w.in, Setter: s.set})
+			}
+		}
+	}
+	return out
+}
+
+func canPrecede(a, b ssa.Instruction) bool {
+	if a.Parent() != b.Parent() {
+		return false
+	}
+	for _, in := range reachableAfter(a, nil) {
+		if in == b {
+			return true
+		}
+	}
+	return false
+}
+
+// mustPassBetween: every path from a to b passes an instruction satisfying match.
+func (p *Program) mustPassBetween(a, b ssa.Instruction, match func(ssa.Instruction) bool) bool {
+	// explore from a without crossing matching instructions; if b is reachable, some path avoids them
+	for _, in := range reachableAfter(a, match) {
+		if in == b {
+			return false
+		}
+	}
+	return true
+}
